@@ -19,7 +19,10 @@ import (
 // 1 without any a=ssrc / a=ssrc-group line, 2 without them and with rid/simulcast lines in the video
 // section, 3 without the video section's a=ssrc lines; 4..9: A offers a single video section, all a=ssrc
 // lines are removed and the a=msid line is replaced by a 2 / 1 / 0 / 3 token form, a trailing-space form, or
-// removed — the two-stage undeclared-SSRC scenario). v/u/d tokens are extra lines inserted after a=mid of the
+// removed — the two-stage undeclared-SSRC scenario; 10 / 11: B, the connection under test, is the OFFERER with a
+// send-only transceiver from a track (no receiver, mids 0 and 3), a recvonly (1), a sendrecv (2) and a stopped one
+// (4); A answers, 11 strips the answer's a=ssrc lines; the RTP then names each of those mids, unknown mids or none,
+// with rid / rsid / neither, on unknown SSRCs). v/u/d tokens are extra lines inserted after a=mid of the
 // video / audio / data section. Once connected, A sends the given raw RTP (r) and
 // RTCP (c) packets on its SRTP/SRTCP sessions, bypassing senders: unknown and declared SSRCs, unknown
 // payload types, mid / rid / rsid header extensions, padding-only and too-short RTX payloads. B reads every
@@ -106,8 +109,15 @@ func c30RunPair(a []string) (out string) {
 		}
 	}
 	modeA := c30ModeTracks | c30ModeData
-	if variant >= 4 {
+	if variant >= 4 && variant < 10 {
 		modeA = c30ModeVideoTrk // exactly one media section
+	}
+	if variant >= 10 {
+		modeA = c30ModeTracks
+		modeB &^= c30ModeTracks | c30ModeData | c30ModeVideoTrk // B's transceivers are added below
+		if semB == 1 {
+			semB = 0 // A (Unified Plan) cannot answer a Plan-B offer
+		}
 	}
 	pa, err := c30NewPC(0, modeA)
 	if err != nil {
@@ -150,30 +160,39 @@ func c30RunPair(a []string) (out string) {
 			}
 		}()
 	})
-	offer, err := pa.CreateOffer(nil)
-	if err != nil {
-		return "inconclusive offer"
-	}
-	if c30WaitGather(pa, func() error { return pa.SetLocalDescription(offer) }) != nil {
-		return "inconclusive offer"
-	}
-	text := c30PairTransform(variant, pa.LocalDescription().SDP, insV, insA, insD)
-	if pb.SetRemoteDescription(webrtc.SessionDescription{Type: webrtc.SDPTypeOffer, SDP: text}) != nil {
-		return "survived"
-	}
-	ans, err := pb.CreateAnswer(nil)
-	if err != nil {
-		return "survived"
-	}
-	if c30WaitGather(pb, func() error { return pb.SetLocalDescription(ans) }) != nil {
-		return "survived"
-	}
-	if err := pa.SetRemoteDescription(*pb.LocalDescription()); err != nil {
-		if os.Getenv("VERIF_DEBUG") != "" {
-			fmt.Fprintf(os.Stderr, "pair: offerer rejected the answer: %v\n", err)
+	if variant >= 10 {
+		// the connection under test (B) is the OFFERER, with transceivers of every shape: send-only from a
+		// track (no receiver), recvonly, sendrecv, and a stopped one; A answers, B sees A's answer (variant 11:
+		// without its a=ssrc lines; both: with the inserted lines)
+		if res := c30OffererUnderTest(pa, pb, variant, insV, insA, insD); res != "" {
+			return res
 		}
+	} else {
+		offer, err := pa.CreateOffer(nil)
+		if err != nil {
+			return "inconclusive offer"
+		}
+		if c30WaitGather(pa, func() error { return pa.SetLocalDescription(offer) }) != nil {
+			return "inconclusive offer"
+		}
+		text := c30PairTransform(variant, pa.LocalDescription().SDP, insV, insA, insD)
+		if pb.SetRemoteDescription(webrtc.SessionDescription{Type: webrtc.SDPTypeOffer, SDP: text}) != nil {
+			return "survived"
+		}
+		ans, err := pb.CreateAnswer(nil)
+		if err != nil {
+			return "survived"
+		}
+		if c30WaitGather(pb, func() error { return pb.SetLocalDescription(ans) }) != nil {
+			return "survived"
+		}
+		if err := pa.SetRemoteDescription(*pb.LocalDescription()); err != nil {
+			if os.Getenv("VERIF_DEBUG") != "" {
+				fmt.Fprintf(os.Stderr, "pair: offerer rejected the answer: %v\n", err)
+			}
 
-		return "inconclusive answer"
+			return "inconclusive answer"
+		}
 	}
 	deadline := time.Now().Add(12 * time.Second)
 	for pa.ConnectionState() != webrtc.PeerConnectionStateConnected ||
@@ -216,6 +235,56 @@ func c30RunPair(a []string) (out string) {
 	time.Sleep(2 * time.Millisecond)
 
 	return "survived"
+}
+
+// c30OffererUnderTest: B adds one transceiver of every shape and offers, A answers, B applies A's (transformed)
+// answer. Returns "" when the exchange went through.
+func c30OffererUnderTest(pa, pb *webrtc.PeerConnection, variant int, insV, insA, insD []string) string {
+	vp8 := webrtc.RTPCodecCapability{MimeType: webrtc.MimeTypeVP8, ClockRate: 90000}
+	opus := webrtc.RTPCodecCapability{MimeType: webrtc.MimeTypeOpus, ClockRate: 48000, Channels: 2}
+	if tv, err := webrtc.NewTrackLocalStaticSample(vp8, "videoB", "streamB"); err == nil { // mid 0: no receiver
+		_, _ = pb.AddTransceiverFromTrack(tv, webrtc.RTPTransceiverInit{Direction: webrtc.RTPTransceiverDirectionSendonly})
+	}
+	_, _ = pb.AddTransceiverFromKind(webrtc.RTPCodecTypeAudio, // mid 1
+		webrtc.RTPTransceiverInit{Direction: webrtc.RTPTransceiverDirectionRecvonly})
+	_, _ = pb.AddTransceiverFromKind(webrtc.RTPCodecTypeVideo, // mid 2
+		webrtc.RTPTransceiverInit{Direction: webrtc.RTPTransceiverDirectionSendrecv})
+	if ta, err := webrtc.NewTrackLocalStaticSample(opus, "audioB", "streamB"); err == nil { // mid 3: no receiver
+		_, _ = pb.AddTransceiverFromTrack(ta, webrtc.RTPTransceiverInit{Direction: webrtc.RTPTransceiverDirectionSendonly})
+	}
+	if stopped, err := pb.AddTransceiverFromKind(webrtc.RTPCodecTypeVideo, // mid 4: stopped after it got its mid
+		webrtc.RTPTransceiverInit{Direction: webrtc.RTPTransceiverDirectionRecvonly}); err == nil {
+		if _, oerr := pb.CreateOffer(nil); oerr == nil { // gives every transceiver its mid
+			_ = stopped.Stop()
+		}
+	}
+	offer, err := pb.CreateOffer(nil)
+	if err != nil {
+		return "inconclusive offer"
+	}
+	if c30WaitGather(pb, func() error { return pb.SetLocalDescription(offer) }) != nil {
+		return "inconclusive offer"
+	}
+	if pa.SetRemoteDescription(*pb.LocalDescription()) != nil {
+		return "inconclusive offer"
+	}
+	ans, err := pa.CreateAnswer(nil)
+	if err != nil {
+		return "inconclusive answer"
+	}
+	if c30WaitGather(pa, func() error { return pa.SetLocalDescription(ans) }) != nil {
+		return "inconclusive answer"
+	}
+	v := 0
+	if variant == 11 {
+		v = 1 // strip every a=ssrc line: A's media is undeclared for B
+	}
+	text := c30PairTransform(v, pa.LocalDescription().SDP, insV, insA, insD)
+	if pb.SetRemoteDescription(webrtc.SessionDescription{Type: webrtc.SDPTypeAnswer, SDP: text}) != nil {
+		return "survived"
+	}
+
+	return ""
 }
 
 // c30ExtIDs: ids of the sdes:mid, rtp-stream-id and repaired-rtp-stream-id header extensions in an offer of
@@ -365,9 +434,13 @@ func c30GenPairs(c *Ctx) {
 	r := c.Rng
 	ids := c30ExtIDs()
 	seq := 1
+	forceSem := -1
 	emit := func(variant int) {
 		semB := r.Intn(3)
 		modeB := []int{0, 0, c30ModeTracks, c30ModeData, c30ModeUndeclNA}[r.Intn(5)]
+		if forceSem >= 0 {
+			semB, modeB = forceSem, 0
+		}
 		toks := []string{}
 		for k := r.Intn(3); k > 0 && r.Intn(2) == 0; k-- {
 			tag := "v"
@@ -379,6 +452,33 @@ func c30GenPairs(c *Ctx) {
 		if variant < 4 && r.Intn(3) == 0 {
 			toks = append(toks, "d"+hx([]byte(c30PairDataLines[r.Intn(len(c30PairDataLines))])))
 		}
+		if variant == 0 {
+			// deterministic RTX coverage: media on the declared video SSRC (7002 after renumbering: audio 7001,
+			// video 7002, its RTX 7003), then RTX packets with 0, 1, 2, 3, 5 payload bytes, with and without
+			// padding / header extension, on the declared repair SSRC
+			for k := 0; k < 3; k++ {
+				seq++
+				toks = append(toks, "r"+hx(c30ProbePacket(7002, 96, seq, ids, c30ProbePkt{})))
+			}
+			for _, pl := range []int{0, 1, 2, 3, 5} {
+				for _, form := range []int{0, 1, 2} {
+					seq++
+					b := []byte{0x80, 97, byte(seq >> 8), byte(seq), 0, 0, 0, byte(seq), 0, 0, 0x1b, 0x5b}
+					if form == 1 { // one header extension word
+						b[0] |= 0x10
+						b = append(b, 0xBE, 0xDE, 0, 1, byte(ids[0]<<4), '0', 0, 0)
+					}
+					for i := 0; i < pl; i++ {
+						b = append(b, byte(i+1))
+					}
+					if form == 2 {
+						b[0] |= 0x20
+						b = append(b, 0, 0, 0, 4)
+					}
+					toks = append(toks, "r"+hx(b))
+				}
+			}
+		}
 		n := 30 + r.Intn(60)
 		for k := 0; k < n; k++ {
 			if r.Intn(6) == 0 {
@@ -386,7 +486,17 @@ func c30GenPairs(c *Ctx) {
 			} else {
 				seq++
 				pkt := c30PairRTP(r, ids, seq)
-				if variant >= 4 && k < 6 {
+				if variant >= 10 {
+					// unknown SSRCs (a few packets each), a payload type B negotiated, mid naming each of B's
+					// sections (0 and 3 have no receiver, 4 is stopped), an unknown mid or none; rid / rsid / neither
+					ssrc := uint32(500000 + k/3) //nolint:gosec
+					mid := []string{"0", "0", "1", "2", "3", "4", "9", ""}[r.Intn(8)]
+					rid := []string{"q", "q", "h", "", "zz"}[r.Intn(5)]
+					rsid := []string{"", "", "", "q", "zz"}[r.Intn(5)]
+					pt := []byte{96, 96, 111, 97}[r.Intn(4)]
+					pkt = c30ProbePacket(ssrc, pt, seq, ids, c30ProbePkt{mid: mid, rid: rid, rsid: rsid, pad: r.Intn(9) == 0})
+				}
+				if variant >= 4 && variant < 10 && k < 6 {
 					pkt[1] = pkt[1]&0x80 | 96 // a payload type the answerer negotiated, so that the SSRC is resolved
 				}
 				toks = append(toks, "r"+hx(pkt))
@@ -399,7 +509,18 @@ func c30GenPairs(c *Ctx) {
 		emit(v)
 		emit(v)
 	}
-	for i := 0; i < c.N(24, 400); i++ {
+	// RTX repair reader (variant 0 carries the deterministic RTX burst)
+	forceSem = 0
+	emit(0)
+	forceSem = 2
+	emit(0)
+	forceSem = -1
+	// the connection under test as offerer with receiver-less / stopped transceivers
+	for k := 0; k < c.N(2, 40); k++ {
+		emit(10)
+		emit(11)
+	}
+	for i := 0; i < c.N(18, 400); i++ {
 		emit(r.Intn(10))
 	}
 }
